@@ -92,6 +92,41 @@ class Cycles(srv.SrvHarness):
         return out
 
 
+class ACycles(srv.ASrvHarness):
+    """the same for AsyncServer (callers and the stream consumer are tasks on a virtual event loop; the gather thread and the
+    workers are real threads): a failed start, enter/exit cycles after a failure, a timed-out call, an abandoned stream -
+    closed before the exit, or only afterwards"""
+    name = 'acycles'
+
+    def setup(self):
+        import mpservice.mpserver._servlet as SV
+        from mc import sched
+        codes = super().setup()
+        for f in (SV.ThreadServlet.start,):
+            codes += sched.all_codes(f)
+        return codes
+
+    def configs(self, tier):
+        quick = tier == 'quick'
+        O = ['answers', 'shutdown']
+        d = 1 if quick else 2
+        cap = 60000 if quick else 600000
+        return [
+            dict(topo='single', nworkers=2, capacity=2, init_fail=['A', 1], calls=[[[0, BIG, False]]],
+                 oracles=['startup', 'shutdown'], bound=d, cap=cap),
+            dict(topo='single', nworkers=2, capacity=2, rounds=2, fail={'A': [1]}, calls=[[[0, BIG, False], [1, BIG, False]]],
+                 oracles=O, bound=d, cap=cap),
+            dict(topo='single', capacity=2, rounds=2, gated=['A'], env_wait=True, env_wait_t=3.0,
+                 calls=[[[0, 2, False]], [[1, BIG, False]]], oracles=O, bound=d, cap=cap),
+            dict(topo='single', capacity=2, rounds=2, calls=[[[10, BIG, False]]], stream=dict(xs=[0, 1, 2, 3], stop_after=1),
+                 oracles=O, bound=d, cap=cap),
+            dict(topo='single', capacity=1, rounds=2, gated=['A'], calls=[], drain_before_exit=False,
+                 stream=dict(xs=[0, 1, 2, 3, 4], stop_after=1, close='after_exit'), oracles=['shutdown'], bound=d, cap=cap),
+            dict(topo='batch', batch=2, capacity=3, rounds=2, calls=[], stream=dict(xs=[0, 1, 2, 3], stop_after=1),
+                 drain_before_exit=False, oracles=['shutdown'], bound=d, cap=cap),
+        ]
+
+
 # ------------------------------------------------------------------ process servlets behind the simulated boundary
 from mpservice.mpserver import Worker  # noqa: E402
 
@@ -240,5 +275,6 @@ class PCycles(PHarness):
         ]
 
 
-HARNESSES = {'startup': Startup, 'cycles': Cycles, 'pstartup': PStartup, 'pcycles': PCycles}
-PLAN = {'quick': ['startup', 'cycles', 'pstartup', 'pcycles'], 'thorough': ['startup', 'cycles', 'pstartup', 'pcycles']}
+HARNESSES = {'startup': Startup, 'cycles': Cycles, 'pstartup': PStartup, 'pcycles': PCycles, 'acycles': ACycles}
+PLAN = {'quick': ['startup', 'cycles', 'acycles', 'pstartup', 'pcycles'],
+        'thorough': ['startup', 'cycles', 'acycles', 'pstartup', 'pcycles']}
